@@ -345,14 +345,14 @@ target(Q + 'split_where', area='Seq', owners=['C13'], raises=True, fuel=True, fu
        model='.ok (%ssplitWhere predicate collection)' % SEQ, theorem='split_where_src_eq')
 target(C + 'list_by_int', area='Repeat', owners=['C13', 'C08'], raises=True, ambient=SIZES,
        params=[('left', VL), ('right', 'int'), ('engine', 'int')], ret=VL,
-       pre=lambda left, right, engine: abs(right) < 2 ** 20,
+       pre=lambda left, right, engine: abs(right) <= 3000,
        model='if Yaql.Limits.listByIntCheck sizes engine kind left.length right then .ok (%slistByInt left right) '
              'else .error (.other 1)' % SEQ, theorem='list_by_int_src_eq',
-       note='engine = the memory quota; sequence repetition beyond 2^20 copies is outside the differential '
+       note='engine = the memory quota; sequence repetition beyond 3000 copies is outside the differential '
             '(MemoryError / OverflowError of the allocator)')
 target(C + 'int_by_list', area='Repeat', owners=['C13'], raises=True, ambient=SIZES,
        params=[('left', 'int'), ('right', VL), ('engine', 'int')], ret=VL,
-       pre=lambda left, right, engine: abs(left) < 2 ** 20,
+       pre=lambda left, right, engine: abs(left) <= 3000,
        model='if Yaql.Limits.listByIntCheck sizes engine kind right.length left then .ok (%slistByInt right left) '
              'else .error (.other 1)' % SEQ, theorem='int_by_list_src_eq')
 
@@ -541,13 +541,13 @@ area('StrRepeat', imports=['Yaql.Model.PyPrelude', 'Yaql.Model.Strings', 'Yaql.M
      uses=['Limits'], drv_imports=['Yaql.Gen.Sizes'], ambient_values=SIZES_VALUES)
 target(S + 'string_by_int', area='StrRepeat', owners=['C19', 'C08'], raises=True, ambient=SIZES,
        params=[('left', 'str'), ('right', 'int'), ('engine', 'int')], ret='str',
-       pre=lambda left, right, engine: abs(right) < 2 ** 16,
+       pre=lambda left, right, engine: abs(right) <= 3000,
        model='if Yaql.Limits.stringByIntCheck sizes engine (Yaql.Limits.strClassOf (Yaql.Py.maxCp left)) left.length right '
              'then .ok (Yaql.Strings.repeatStr left right) else .error (.other 1)', theorem='string_by_int_src_eq',
-       note='engine = the memory quota; repetition beyond 2^16 copies is outside the differential')
+       note='engine = the memory quota; repetition beyond 3000 copies is outside the differential')
 target(S + 'int_by_string', area='StrRepeat', owners=['C19', 'C08'], raises=True, ambient=SIZES,
        params=[('left', 'int'), ('right', 'str'), ('engine', 'int')], ret='str',
-       pre=lambda left, right, engine: abs(left) < 2 ** 16,
+       pre=lambda left, right, engine: abs(left) <= 3000,
        model='if Yaql.Limits.stringByIntCheck sizes engine (Yaql.Limits.strClassOf (Yaql.Py.maxCp right)) right.length left '
              'then .ok (Yaql.Strings.repeatStr right left) else .error (.other 1)', theorem='int_by_string_src_eq')
 
